@@ -256,8 +256,8 @@ func addRandFK(r *rng.R, s *Schema, t *Table, ref string) {
 // ---- values -----------------------------------------------------------------
 
 var intVals = []string{"0", "1", "-1", "42", "13", "2147483648", "9007199254740993", "-9223372036854775808", "7"}
-var realVals = []string{"0.0", "1.5", "-2.25", "1e100", "3.0", "0.1", "123456789.125"}
-var textVals = []string{"''", "'a'", "'it''s'", "'héllo'", "'NULL'", "'123'", "' sp '", "'x`y'", "'ABC'", "'long long long long text value'", "'1.0'", "'d'"}
+var realVals = []string{"0.0", "1.5", "-2.25", "1e100", "3.0", "0.1", "123456789.125", "-0.0", "9e999", "1e-320", "0.30000000000000004"}
+var textVals = []string{"''", "'a'", "'it''s'", "'héllo'", "'NULL'", "'123'", "' sp '", "'x`y'", "'ABC'", "'long long long long text value'", "'1.0'", "'d'", "'line1' || char(10) || 'line2'", "''''", "'\U0001F600 z\u00fc'", "'tab' || char(9)"}
 var blobVals = []string{"x''", "x'00'", "x'deadbeef'", "x'27'", "x'6162'"}
 
 func genValue(r *rng.R, c Col, strict bool) string {
